@@ -321,6 +321,14 @@ fn run_cursor(t: i32, other: i32, word: &[u8], seed: u64, case: &str, rep: &mut 
             v
         }));
         let r13 = pairs_of(mk().and_then(|r| seek_twice(r, 2)));
+        // the complete reader without index: seek(k) is refused (whatever it answers is not judged
+        // here), and what is read afterwards still pairs shape i with row i
+        let seek_noidx = |mut r: Reader<Cursor<Vec<u8>>, Cursor<Vec<u8>>>, k: usize| -> Result<Vec<(Shape, Record)>, Error> {
+            let _ = r.seek(k);
+            r.read()
+        };
+        let r15 = pairs_of(mkn().and_then(|r| seek_noidx(r, 1)));
+        let r16 = pairs_of(mkn().and_then(|r| seek_noidx(r, 3)));
         let r14 = pairs_of(mk().and_then(|r| seek_twice(r, 5)));
         vec![
             ("Reader::read", r1),
@@ -340,6 +348,8 @@ fn run_cursor(t: i32, other: i32, word: &[u8], seed: u64, case: &str, rep: &mut 
             ("seek(2), one pair, seek(2), then read()", r13),
             ("seek(5), one pair, seek(5), then read()", r14),
             ("pairs up to the first error", r_prefix),
+            ("no-index:seek(1) answered, then read()", r15),
+            ("no-index:seek(3) answered, then read()", r16),
         ]
     });
     match read {
